@@ -330,6 +330,8 @@ type c12Call struct {
 	times [5]time.Time
 	name  string
 	pre   func() // a change of what the PCS serves, made before this call
+	post  func() // the end of a transient network fault, after this call
+	lost  bool   // a document this call's level needs is not obtained intact during it
 }
 
 func (c *c12Call) apply(o *verify.Options) {
@@ -385,7 +387,8 @@ func c12History(r *core.Run) {
 			// between two calls the PCS may start serving something else for this platform (a new CRL that
 			// revokes the leaf, a TCB Info whose matching level is no longer UpToDate, or the original again):
 			// every verification is judged on what is served when it runs
-			var pre func()
+			var pre, post func()
+			needed := false
 			if t.Chance(1, 3) {
 				switch t.Draw(3) {
 				case 0:
@@ -410,8 +413,60 @@ func c12History(r *core.Run) {
 					fault += "+pcs-serves-original-again"
 				}
 				r.Probe("served_data_changes_between_calls")
+			} else if t.Chance(1, 3) {
+				// a transient network fault: for the duration of this one verification a route is down, answers
+				// with half a body, with an empty 200, or without its headers; afterwards the service is back.  A
+				// document the level needs was not obtained intact, so this verification rejects, and nothing
+				// of the failure is remembered by the next one.
+				routes := []string{world.RouteTcb, world.RouteQE, world.RoutePckCrl, world.RouteRootCrl}
+				route := routes[t.Draw(len(routes))]
+				kind := t.Draw(4)
+				if route == world.RouteRootCrl && kind == 3 {
+					kind = 0 // a root CRL answer needs no header
+				}
+				kinds := []string{"down", "half-body", "empty-200", "headers-lost"}
+				pre = func() {
+					w.Publish()
+					s := w.PCS
+					hit := func(ep *world.Endpoint) *world.Endpoint {
+						switch kind {
+						case 0:
+							return &world.Endpoint{Err: fmt.Errorf("read tcp: connection reset by peer")}
+						case 1:
+							c := ep.Clone()
+							c.Body = c.Body[:len(c.Body)/2]
+							return c
+						case 2:
+							c := ep.Clone()
+							c.Body = []byte{}
+							return c
+						}
+						c := ep.Clone()
+						c.Hdr = map[string][]string{"Content-Type": {"application/json"}}
+						return c
+					}
+					switch route {
+					case world.RouteTcb:
+						for _, k := range core.SortedKeys(s.Tcb) {
+							s.Tcb[k] = hit(s.Tcb[k])
+						}
+					case world.RouteQE:
+						s.QE = hit(s.QE)
+					case world.RoutePckCrl:
+						s.PckCrl[w.CAID] = hit(s.PckCrl[w.CAID])
+					default:
+						for _, k := range core.SortedKeys(s.ByURL) {
+							s.ByURL[k] = hit(s.ByURL[k])
+						}
+					}
+				}
+				post = func() { w.Publish() }
+				needed = ((route == world.RouteTcb || route == world.RouteQE) && (level == O1 || level == O2)) ||
+					((route == world.RoutePckCrl || route == world.RouteRootCrl) && (level == O2 || level == O3))
+				fault += "+transient:" + route + "-" + kinds[kind]
+				r.Probe("transient_network_fault_during_one_call")
 			}
-			calls = append(calls, c12Call{w: w, raw: raw, level: level, pool: pool, times: times, pre: pre, name: fmt.Sprintf("%s%d:%s@%s/%s", tag, i, w.CAID, optNames[level], fault)})
+			calls = append(calls, c12Call{w: w, raw: raw, level: level, pool: pool, times: times, pre: pre, post: post, lost: needed, name: fmt.Sprintf("%s%d:%s@%s/%s", tag, i, w.CAID, optNames[level], fault)})
 		}
 		return calls
 	}
@@ -452,6 +507,9 @@ func c12History(r *core.Run) {
 				c.apply(fresh)
 				o2 := verifyRaw(c.raw, fresh)
 				c.w.PCS.OnFetch = nil
+				if c.post != nil {
+					c.post()
+				}
 				results[hi].shared = append(results[hi].shared, o1.Accepted())
 				results[hi].fresh = append(results[hi].fresh, o2.Accepted())
 				sched.Yield("between-calls")
@@ -468,6 +526,9 @@ func c12History(r *core.Run) {
 			r.Eval()
 			s, f := results[hi].shared[ci], results[hi].fresh[ci]
 			r.Eventf("history %d call %d %s shared=%v fresh=%v", hi, ci, c.name, s, f)
+			if c.lost && (s || f) {
+				r.Violate("C12:accepted-without-needed-document", "history %d, call %d (%s): accepted (re-used options value %v, fresh one %v) although a document this level needs was not obtained intact", hi, ci, c.name, s, f)
+			}
 			if s != f {
 				r.Violate("C12:shared-options-differs", "history %d, call %d (%s): verdict through the re-used options value = %v, through a fresh one = %v", hi, ci, c.name, s, f)
 			}
